@@ -5,7 +5,7 @@ from ..worldprop import base_outcome, completion, REAL_VS_STUB  # noqa
 
 np = sut.np
 ID = "C09"
-RUNS = {"quick": 3500, "thorough": 100000}
+RUNS = {"quick": 7000, "thorough": 100000}
 BUDGET = {"quick": 50, "thorough": 800}
 RULE = ("worlds of every party / EVSE / battery class with 1-3 injected scheduler crashes, each resumed by rerun, "
         "to_json()->str, to_json(StringIO) or to_json(file) + from_json + update_scheduler; twin run without crashes is "
